@@ -748,9 +748,88 @@ func releasesControl(p *core.Prog, c ssa.CallInstruction, fld string) bool {
 		}
 	}
 	if !hit {
-		return false
+		// … or the ADDRESS of that field is handed to a helper / local closure that
+		// releases what the pointer refers to (`release := func(cf **ControlFile) {…};
+		// release(&h.tempFile)`)
+		return throughFieldAddr(p, c, 0, func(k ssa.CallInstruction) bool {
+			return len(removalsAt(p, k)[roleControl]) > 0
+		}, fld)
 	}
 	return len(removalsAt(p, c)[roleControl]) > 0
+}
+
+// addrChainEndsWith: v is the address of a field, &x.….f, whose chain ends with want.
+func addrChainEndsWith(v ssa.Value, want ...string) bool {
+	fa, ok := v.(*ssa.FieldAddr)
+	if !ok || len(want) == 0 || core.FieldOwner(fa) != want[len(want)-1] {
+		return false
+	}
+	return len(want) == 1 || chainEndsWith(fa.X, want[:len(want)-1]...)
+}
+
+// throughFieldAddr: call c passes the address of the field (chain suffix) to a
+// callee with a body — a function, a method or a local closure — in which every
+// path from the entry to a return applies a call satisfying rel to the value loaded
+// through that pointer parameter (receiver or argument), or hands the pointer on to
+// a callee that does (2 levels); paths on which the loaded value is known nil have
+// nothing to release.
+func throughFieldAddr(p *core.Prog, c ssa.CallInstruction, depth int, rel func(k ssa.CallInstruction) bool, suffix ...string) bool {
+	g := core.StaticCallee(c)
+	if g == nil {
+		if l := p.Callees(c); len(l) == 1 {
+			g = l[0]
+		}
+	}
+	if g == nil || g.Blocks == nil {
+		return false
+	}
+	args := c.Common().Args
+	for i, a := range args {
+		if i < len(g.Params) && len(args) == len(g.Params) && addrChainEndsWith(a, suffix...) && paramPointeeReleased(p, g, g.Params[i], depth, rel) {
+			return true
+		}
+	}
+	return false
+}
+
+func paramPointeeReleased(p *core.Prog, g *ssa.Function, prm *ssa.Parameter, depth int, rel func(k ssa.CallInstruction) bool) bool {
+	isLoad := func(v ssa.Value) bool {
+		u, ok := v.(*ssa.UnOp)
+		return ok && u.Op == token.MUL && u.X == ssa.Value(prm)
+	}
+	saw := false
+	rets := returnsWithout(g, nil, func(in ssa.Instruction) bool {
+		k, ok := in.(ssa.CallInstruction)
+		if !ok {
+			return false
+		}
+		if _, isDefer := in.(*ssa.Defer); isDefer {
+			return false
+		}
+		for i, a := range callArgs(k) {
+			if isLoad(a) && rel(k) {
+				saw = true
+				return true
+			}
+			if a == ssa.Value(prm) && depth < 2 && !k.Common().IsInvoke() {
+				if f := core.StaticCallee(k); f != nil && f != g && f.Blocks != nil && i < len(f.Params) && len(k.Common().Args) == len(f.Params) &&
+					paramPointeeReleased(p, f, f.Params[i], depth+1, rel) {
+					saw = true
+					return true
+				}
+			}
+		}
+		return false
+	}, func(from, to *ssa.BasicBlock) bool {
+		for _, f := range edgeFactOnly(from, to) {
+			x, neq, ok := core.NilCmp(f.Cond)
+			if ok && isLoad(x) && neq == f.Neg {
+				return true
+			}
+		}
+		return false
+	})
+	return saw && len(rets) == 0
 }
 
 // closesDescriptor: the call closes the descriptor loaded through the given
@@ -763,7 +842,12 @@ func closesDescriptor(p *core.Prog, c ssa.CallInstruction, suffix ...string) boo
 			hit = true
 		}
 	}
-	return hit && callReachesNamed(p, c, fnGoClose, "(*os.File).Close")
+	if !hit {
+		return throughFieldAddr(p, c, 0, func(k ssa.CallInstruction) bool {
+			return callReachesNamed(p, k, fnGoClose, "(*os.File).Close")
+		}, suffix...)
+	}
+	return callReachesNamed(p, c, fnGoClose, "(*os.File).Close")
 }
 
 // nilEdgeOf prunes the edges on which a value loaded through the given field
